@@ -28,11 +28,13 @@ if TYPE_CHECKING:
 class QubitPermutationGate(raw_types.Gate):
     r"""A qubit permutation gate specified by a permutation list.
 
-    For a permutation list $[p_0, p_1,\dots,p_{n-1}]$ this gate has the unitary
+    For a permutation list $[p_0, p_1,\dots,p_{n-1}]$ this gate moves the state of qubit $i$
+    to qubit $p_i$, i.e. it has the unitary
 
     $$
-    \sum_{x_0,x_1,\dots,x_{n-1} \in \{0, 1\}} |x_{p_0}, x_{p_1}, \dots, x_{p_{n-1}}\rangle
+    \sum_{x_0,x_1,\dots,x_{n-1} \in \{0, 1\}} |y_0, y_1, \dots, y_{n-1}\rangle
                                               \langle x_0, x_1, \dots, x_{n-1}|
+    \quad\text{with}\quad y_{p_i} = x_i
     $$
     """
 
